@@ -265,11 +265,12 @@ class Monitor:
         return w, i
 
     # -- the boundary ----------------------------------------------------------------------------
-    def call(self, op, fn, *args, inplace=(), **kwargs):
+    def call(self, op, fn, *args, inplace=(), resnap_all=False, **kwargs):
         """Invoke fn(*args, **kwargs) as boundary event `op`.  TT operands are snapshotted before and
         compared after (normal or exceptional return); then the quiescent-point checks run over every
         live TT object.  `inplace` lists receivers of documented in-place operations (their snapshot is
-        refreshed instead of compared)."""
+        refreshed instead of compared); `resnap_all` marks a raw write by the HARNESS itself into a core tensor (everything that
+        aliases that tensor legitimately changes with it: all snapshots are refreshed, nothing is compared)."""
         self.seq += 1
         self.counters['calls'] += 1
         self.counters['op:' + op] += 1
@@ -303,9 +304,9 @@ class Monitor:
                     if bad:
                         self._imm_report(op, 'operand', where, o, bad, how)
                         self.snaps[id(o)] = (weakref.ref(o), Snap(o))  # report once
-                self.quiesce(op, inplace)
+                self.quiesce(op, inplace, resnap_all)
 
-    def quiesce(self, op='quiesce', inplace=()):
+    def quiesce(self, op='quiesce', inplace=(), resnap_all=False):
         """Quiescent point: WF over all live objects; value stability of all earlier-seen objects."""
         self.counters['quiescent_points'] += 1
         live = list(self.registry)
@@ -316,7 +317,7 @@ class Monitor:
             fresh = False
             ent = self.snaps.get(oid)
             if ent is not None and ent[0]() is o:
-                if any(o is x for x in inplace):
+                if resnap_all or any(o is x for x in inplace):
                     self.snaps[oid] = (ent[0], Snap(o))
                     self.wf_reported.discard(oid)
                     fresh = True
